@@ -123,6 +123,10 @@ static int cmp_prio(const void *a, const void *b, void *p)
     VRT_CHECK((x->where == cur_model || x == cur_push) && (y->where == cur_model || y == cur_push),
               "heap.cmp.non-member", "comparison called with an element that is neither in the heap nor being pushed");
     VRT_COUNT("cmp.calls");
+    /* only the sign of the result is specified: scale 7 stands for "magnitude unrelated to the
+     * distance between the priorities" (as with strcmp-like or multi-key comparators) */
+    if (C->cmpscale == 7)
+        return ((x->key > y->key) - (x->key < y->key)) * (1 + (x->id * 131 + y->id * 31) % 997);
     return ((x->key > y->key) - (x->key < y->key)) * C->cmpscale;
 }
 
@@ -602,7 +606,7 @@ static void run_random(uint64_t idx)
     c->nk = nks[vrt_below(&g, 8)];
     if (c->nk == 0 || c->nk > c->np) c->nk = c->np;
     c->maxlen = c->np;
-    c->cmpscale = vrt_chance(&g, 1, 3) ? 1000003 : 1;
+    c->cmpscale = vrt_chance(&g, 1, 3) ? 1000003 : vrt_chance(&g, 1, 2) ? 7 : 1;
     nops = big ? (vrt_thorough ? 12000 : 6000) : (vrt_thorough ? 4000 : 1500);
     if (big) target = c->np;            /* large pools: fill completely first */
     vrt_case_note("random heaps=%d priorities=%d pool=%d cmpscale=%d ops=%d", c->nh, c->nk, c->np, c->cmpscale, nops);
